@@ -5,6 +5,7 @@ import ast
 
 from ..cfg import CFG, EXIT
 from ..core import AnalysisError, calls_in, call_name, dotted, unparse, walk_no_nested
+from ..facts import assign_facts, return_facts, show
 from ..report import Ctx
 from ..terms import NODES, node_class_terms
 
@@ -160,26 +161,19 @@ def r3_position_nodes(ctx: Ctx) -> None:
                   f"emit() moves to {unparse(sp[0].args[0]) if sp else None}, pc_after() to {at.value}")
         ctx.check(len(sp) == 1 and unparse(sp[0].func) == "self.resolver.set_position", f"{cname}:moves-resolver", "emit() calls resolver.set_position")
     sp = repo.func(SYMBOLS, "Resolver.set_position")
-    pcw = [n for n in walk_no_nested(sp.node) if isinstance(n, ast.Assign) and unparse(n.targets[0]) == "self.pc"]
-    g = CFG(sp.node)
-    ok = False
-    if len(pcw) == 1:
-        for st in walk_no_nested(sp.node):
-            if isinstance(st, ast.If) and unparse(st.test) in ("physical is not None", "addr.physical is not None") and pcw[0] in st.body:
-                ok = unparse(pcw[0].value) in ("physical", "addr.physical")
-    ctx.check(ok, "Resolver.set_position:pc-only-for-rom", "the file offset moves only when the target has a physical address, and to that address")
-    ra = [n for n in walk_no_nested(sp.node) if isinstance(n, ast.Assign) and unparse(n.targets[0]) == "self.reloc_address"]
-    addr = [n for n in walk_no_nested(sp.node) if isinstance(n, ast.Assign) and unparse(n.targets[0]) == "addr"]
-    ok = (len(ra) == 1 and ra[0] in sp.node.body and unparse(ra[0].value) == "addr" and len(addr) == 1
-          and unparse(addr[0].value) == f"self.get_bus().get_address({sp.params()[1]})")
-    ctx.check(ok, "Resolver.set_position:run-address", "the run address always becomes the bus address of the argument")
-    phys = [n for n in walk_no_nested(sp.node) if isinstance(n, ast.Assign) and unparse(n.targets[0]) == "physical"]
-    ctx.check(len(phys) == 1 and unparse(phys[0].value) == "addr.physical", "Resolver.set_position:physical-source", "physical is the mapped offset of that same address")
+    P = sp.params()[1]
+    addr_expr = f"self.get_bus().get_address({P})"
+    pc_facts = assign_facts(sp, "self.pc")
+    want_pc = {(f"{addr_expr}.physical", frozenset({(f"{addr_expr}.physical is None", False)}))}
+    ctx.check(pc_facts == want_pc, "Resolver.set_position:pc-only-for-rom",
+              f"the file offset moves only when the target has a physical address, and to that address; found: {show(pc_facts)}")
+    ra_facts = assign_facts(sp, "self.reloc_address")
+    ctx.check(ra_facts == {(addr_expr, frozenset())}, "Resolver.set_position:run-address",
+              f"the run address always becomes the bus address of the argument; found: {show(ra_facts)}")
     gb = repo.func(SYMBOLS, "Resolver.get_bus")
-    rets = [unparse(r.value) for r in walk_no_nested(gb.node) if isinstance(r, ast.Return)]
-    src = {unparse(n.value) for n in walk_no_nested(gb.node) if isinstance(n, ast.Assign) and unparse(n.targets[0]) == "bus"}
-    ctx.check(src == {"self.bus", "BUS_MAPPING[self.rom_type]"} and rets == ["bus"], "Resolver.get_bus", f"the active mapping is the user bus when it has mappings, else BUS_MAPPING[rom_type]; found {sorted(src)}")
-
+    gf = return_facts(gb)
+    want = {("self.bus", frozenset({("self.bus.has_mappings()", True)})), ("BUS_MAPPING[self.rom_type]", frozenset({("self.bus.has_mappings()", False)}))}
+    ctx.check(gf == want, "Resolver.get_bus", f"the active mapping is the user bus when it has mappings, else BUS_MAPPING[rom_type]; found: {show(gf)}")
 
 
 def r4_writers_place_blocks(ctx: Ctx) -> None:
